@@ -22,6 +22,17 @@ P = {
          'revcomp involutive with mirrored complement, encodeRc = encode∘revcomp, UInt64 accumulator never wraps for k<=32. '
          'Tie: all k-mers k<=6/8, all byte strings of length<=2, boundary and random k-mers/indices against the compiled module.',
          '§5 C07', 'The .so is what is exercised; Cython int conversions at the boundary are trusted.'),
+ 'C05': (True, 'Lean 4 theorems (index-plumbing refinement to cell(i,j) = dist q_i r_j; schedule independence of prange) + correspondence parametric in the real pairwise values',
+         'Theorems (all parametric in dist): matrix_cells for every chunk size / index selection / pre-filled buffer, chunkSlices_partition, '
+         'pairwiseSquareLoop_eq, pairwiseFlat_get (condensed offsets), prange_schedule_independent for every permutation of iterations. '
+         'Tie: jaccarddist_array/_matrix/_pairwise over 4 container types x dtypes x chunk sizes x index selections x out buffers x 1..16 threads; '
+         'the Lean model is instantiated with the table of real two-signature bit patterns. PARTIAL: a data race inside one compiled iteration is sampled, not proved.',
+         '§5 C05', 'OpenMP prange semantics assumed (each iteration once, loop-assigned variables private); h5py slicing trusted.'),
+ 'C20': (True, 'Lean 4 theorems (refinement of the concatenated representation and of every index form to list semantics) + exhaustive/random correspondence',
+         'Theorems: concat_refines_list (all index forms incl. the contiguous fast path), ofList_toList, slice_spec/arange_mem (clipped arithmetic progression), '
+         'ints/mask/int/errors specs, applyMut list semantics, sigEq_iff. Tie: SignatureArray/SignatureList/HDF5Signatures against GambitV.getItemList on '
+         'every slice over a small range, all short index lists and masks, NumPy integer dtypes, ill-typed indices, mutation histories, equality.',
+         '§5 C20', 'CPython slice.indices / numpy.arange / flatnonzero are modelled (validated by the c20.sliceidx stream); h5py trusted.'),
 }
 
 REASON_PENDING = 'check not built yet in this round (machinery under construction; see DESIGN.md §8 build order)'
